@@ -4,6 +4,7 @@ import (
 	"cmp"
 	"fmt"
 	"log/slog"
+	"math"
 
 	"github.com/AdguardTeam/AdGuardDNS/internal/connlimiter"
 	"github.com/AdguardTeam/AdGuardDNS/internal/dnsserver/ratelimit"
@@ -266,7 +267,22 @@ func (c *ratelimitTCPConfig) validate() (err error) {
 		return errors.ErrNoValue
 	}
 
-	return validatePositive("max_pipeline_count", c.MaxPipelineCount)
+	err = validatePositive("max_pipeline_count", c.MaxPipelineCount)
+	if err != nil {
+		return err
+	}
+
+	// The count is used as the capacity of a channel, so it must fit an int.
+	if c.MaxPipelineCount > math.MaxInt {
+		return fmt.Errorf(
+			"max_pipeline_count: %w: must be less than or equal to %d, got %d",
+			errors.ErrOutOfRange,
+			math.MaxInt,
+			c.MaxPipelineCount,
+		)
+	}
+
+	return nil
 }
 
 // ratelimitQUICConfig is the configuration of QUIC streams limiting.
